@@ -434,6 +434,7 @@ namespace
         bool faults;
         explicit LinkWorld(bool f) : faults(f) {}
         const char *name() const override { return faults ? "link-with-faults" : "link-fault-free"; }
+        unsigned weight(Tier) const override { return 7; }
 
         Bytes gen_payload(Rng &r, const Alphabet &a, int maxlen)
         {
@@ -725,14 +726,129 @@ namespace
             return res;
         }
     };
+
+    // ---------------------------------------------------------------- exhaustive blocks
+    // C05: every stream of length <= L over a reduced alphabet (start, stop, stuff, one escape code, a data byte, the
+    //      CRC-completing byte) for one receiver and capacity; a run executes one block of consecutive stream indices.
+    // C04: every payload of length <= 2 over all 256 byte values; a run executes one block of consecutive payload indices.
+    struct BlockWorld : World
+    {
+        bool faults;
+        explicit BlockWorld(bool f) : faults(f) {}
+        const char *name() const override { return faults ? "short-streams-exhaustive-blocks" : "short-payloads-exhaustive-blocks"; }
+        unsigned weight(Tier) const override { return 1; }
+        Plan generate(Rng &r, Tier tier) override
+        {
+            Plan p;
+            int variant = (int)r.below(VAR_N);
+            if (faults)
+            {
+                int L = (int)r.range(1, tier == THOROUGH ? 9 : 7);
+                uint64_t space = 1;
+                for (int i = 0; i < L; i++) space *= 6;
+                int cap = (int)r.range(2, 6);
+                p.cfg = {variant, cap, L};
+                p.ops.push_back({(int64_t)r.below(space)});
+            }
+            else
+            {
+                p.cfg = {variant, (int64_t)r.below(ENC_N), 0};
+                p.ops.push_back({(int64_t)r.below(65536 + 256 + 1)});
+            }
+            return p;
+        }
+        std::string describe(const Plan &p) override
+        {
+            return std::string(VAR_NAME[mod(p.c(0), VAR_N)]) + (faults ? " cap=" + std::to_string(mod(p.c(1) - 2, 5) + 2) + " all streams of length " + std::to_string(mod(p.c(2) - 1, 9) + 1) + " from index " : " all payloads from index ") +
+                   std::to_string(p.ops.empty() ? 0 : arg(p.ops[0], 0)) + " (block of " + (faults ? "3000" : "400") + ")";
+        }
+        Result execute(const Plan &p, Trace &tr) override
+        {
+            Result res;
+            int variant = (int)mod(p.c(0), VAR_N);
+            const Alphabet &a = alpha_of(variant);
+            if (p.ops.empty()) return res;
+            LinkStats ls;
+            if (faults)
+            {
+                int cap = (int)mod(p.c(1) - 2, 5) + 2;
+                int L = (int)mod(p.c(2) - 1, 9) + 1;
+                uint64_t space = 1;
+                for (int i = 0; i < L; i++) space *= 6;
+                uint64_t first = (uint64_t)mod(arg(p.ops[0], 0), (int64_t)space);
+                const int sym[6] = {a.START, a.STOP, a.STUB, a.C_START, 'a', -1};
+                std::vector<FrameMeta> none;
+                for (uint64_t idx = first; idx < space && idx < first + 3000; idx++)
+                {
+                    std::vector<Elem> stream;
+                    uint64_t x = idx;
+                    for (int i = 0; i < L; i++, x /= 6)
+                    {
+                        int sy = sym[x % 6];
+                        stream.push_back(sy < 0 ? Elem{0, 1, -1, false} : Elem{(uint8_t)sy, 0, -1, false});
+                    }
+                    try
+                    {
+                        run_stream(variant, cap, stream, none, (long)L - 1, false, tr, ls);
+                    }
+                    catch (Violation &v)
+                    {
+                        v.detail = "[exhaustive stream #" + std::to_string(idx) + " of length " + std::to_string(L) + "] " + v.detail;
+                        throw;
+                    }
+                    stat("exhaustive_short_streams");
+                }
+                probe("exhaustive_block");
+            }
+            else
+            {
+                int enc = (int)mod(p.c(1), ENC_N);
+                uint64_t space = 65536 + 256 + 1;
+                uint64_t first = (uint64_t)mod(arg(p.ops[0], 0), (int64_t)space);
+                for (uint64_t idx = first; idx < space && idx < first + 400; idx++)
+                {
+                    Bytes pl;
+                    if (idx >= 1 && idx <= 256) pl = {(uint8_t)(idx - 1)};
+                    else if (idx > 256) pl = {(uint8_t)((idx - 257) >> 8), (uint8_t)((idx - 257) & 255)};
+                    Bytes encd = real_encode(variant, enc, pl, {});
+                    Bytes want = ref_encode(a, pl);
+                    if (encd != want)
+                        violate("C04/frame-bytes", "%s: payload %s is framed as %s, reference encoding %s", VAR_NAME[variant], hex(pl).c_str(), hex(encd).c_str(), hex(want).c_str());
+                    std::vector<Elem> stream;
+                    for (uint8_t b : encd) stream.push_back(Elem{b, 0, 0, false});
+                    std::vector<FrameMeta> fr(1);
+                    fr[0].payload = pl;
+                    fr[0].first = 0;
+                    fr[0].last = stream.size() - 1;
+                    fr[0].intact = true;
+                    try
+                    {
+                        run_stream(variant, (int)pl.size() + 2, stream, fr, -1, true, tr, ls);
+                    }
+                    catch (Violation &v)
+                    {
+                        v.detail = "[exhaustive payload " + hex(pl) + "] " + v.detail;
+                        throw;
+                    }
+                    stat("exhaustive_short_payloads");
+                }
+                probe("exhaustive_block");
+            }
+            res.steps = ls.bytes;
+            res.simtime = ls.bytes;
+            res.nontrivial = true;
+            return res;
+        }
+    };
 }
 
 int main(int argc, char **argv)
 {
     LinkWorld w(LINK_FAULTS != 0);
+    BlockWorld bw(LINK_FAULTS != 0);
     Harness h;
     h.property = LINK_FAULTS ? "C05" : "C04";
-    h.worlds = {&w};
+    h.worlds = {&w, &bw};
     if (LINK_FAULTS)
         h.real = {"igris/protocols/gstuff.cpp (gstuff_autorecv with both alphabets)", "igris/protocols/gstuff_v1/autorecv.c",
                   "igris/datastruct/sline.h", "igris/util/crc.h (igris_strmcrc8 inside the receivers)"};
